@@ -38,6 +38,11 @@ func init() {
 		{"election+replication", sim.Config{Voters: 3}, with(lead, "write n0", "flush", "write n0", "flush", "beat n0", "flush")},
 		{"conflict+truncate", sim.Config{Voters: 3}, with(lead, "isolate n0", "write n0", "write n0", "timeout n1", "rt 1>2:RV#0 a=2", "rt 1>2:RV#1", "flush",
 			"write n1", "flush", "heal", "flush", "beat n1", "flush")},
+		{"conflict+truncate+snapshots", sim.Config{Voters: 3, SnapAt: 2}, with(lead, "isolate n0", "write n0", "write n0", "timeout n1", "rt 1>2:RV#0 a=2", "rt 1>2:RV#1", "flush",
+			"write n1", "flush", "write n1", "flush", "heal", "flush", "beat n1", "flush", "beat n1", "flush")},
+		{"snapshot-before-later-term-entry", sim.Config{Voters: 3, SnapAt: 2}, with(lead, "write n0", "rt 0>1:AE#2", "rt 0>2:AE#2", "rt 0>1:AE#3", "isolate n0", "timeout n1", "rt 1>2:RV#0 a=2", "rt 1>2:RV#1", "flush",
+			"write n1", "flush", "heal", "flush", "beat n1", "flush")},
+		{"same-term-step-down-after-vote", sim.Config{Voters: 3}, append(append([]sim.Event{}, seedSplit...), p("rt 0>2:RV#2", "rt 1>2:RV#2 a=2", "timeout n2", "rt 0>2:AE#0", "heal", "flush", "beat n0", "flush")...)},
 		{"vote-then-candidate-dies", sim.Config{Voters: 3}, p("timeout n0", "rt 0>1:RV#0 a=2", "rt 0>1:RV#1", "crash n0", "timeout n2", "rt 2>1:RV#0 a=2", "rt 2>1:RV#1", "timeout n2", "rt 2>1:RV#2 a=2", "flush", "restart n0", "beat n2", "flush")},
 		{"local-snapshot", sim.Config{Voters: 3, SnapAt: 2}, with(lead, "write n0", "flush", "write n0", "flush", "write n0", "flush", "beat n0", "flush")},
 		{"install-on-lagging-follower", sim.Config{Voters: 3, SnapAt: 2}, with(lead, "crash n2", "write n0", "flush", "write n0", "flush", "write n0", "flush", "restart n2", "beat n0", "flush", "beat n0", "flush", "beat n0", "flush")},
@@ -163,7 +168,8 @@ func runC14(sc *c14Scenario, plan *sim.CrashPlan, record bool) c14Out {
 						return out
 					}
 				}
-				inLogOp := strings.Contains(c.CrashedAt, "log.bin") || strings.Contains(c.CrashedAt, " tmp-")
+				// an in-flight Truncate or DiscardEntries may legitimately have removed entries
+				inLogOp := strings.Contains(c.CrashedAt, "Truncate") || strings.Contains(c.CrashedAt, "tmp-log")
 				if !inLogOp && len(pre) > 0 {
 					for _, e := range pre[1:] {
 						if e.Index <= rec[0].Index {
@@ -172,7 +178,7 @@ func runC14(sc *c14Scenario, plan *sim.CrashPlan, record bool) c14Out {
 						k := e.Index - rec[0].Index
 						if k >= uint64(len(rec)) || rec[k].Term != e.Term || string(rec[k].Data) != string(e.Data) {
 							out.Sig = "recovered-log-lost-entry"
-							out.Detail = fmt.Sprintf("after the crash at %s (not a log operation) n%d no longer holds entry (%d, term %d) it held before", c.CrashedAt, plan.Node, e.Index, e.Term)
+							out.Detail = fmt.Sprintf("after the crash at %s (not a truncation or discard) n%d no longer holds entry (%d, term %d) it held before", c.CrashedAt, plan.Node, e.Index, e.Term)
 							return out
 						}
 					}
@@ -321,7 +327,7 @@ func init() {
 	checks["C14"] = func(prop, tier string) int {
 		t0 := time.Now()
 		rep := common.NewReport(prop)
-		secs := 150
+		secs := 400
 		if tier == "thorough" {
 			secs = 1200
 		}
